@@ -72,7 +72,7 @@ REQUIRED = {"precedence.attribute": {"quick": 20000, "thorough": 1500000}, "bool
             "paths.relative_to_config_file": {"quick": 150, "thorough": 8000}, "list.order": {"quick": 400, "thorough": 20000},
             "userdata.define_parsing": {"quick": 2000, "thorough": 100000}, "userdata.cmdline_overrides_file": {"quick": 300, "thorough": 15000},
             "userdata.getters": {"quick": 1500, "thorough": 60000}, "userdata.namespace_view": {"quick": 500, "thorough": 20000}, "precedence.options_around_a_bare_color": {"quick": 200, "thorough": 8000}, "outputs.paired_with_formatters_in_order": {"quick": 300, "thorough": 10000}, "couplings.documented": {"quick": 100, "thorough": 4000}, "embedded.explicit_command_line_is_the_command_line": {"quick": 300, "thorough": 8000}}
-REQUIRED_SEEN = {"stage_decided_by": ["cmdline", "file", "environment", "default", "cmdline_with_BEHAVE_STAGE_set", "file_with_BEHAVE_STAGE_set"], "embedded_args": ["none_means_sys_argv", "empty_list", "empty_str", "empty_tuple", "given"], "outfile_list_shape": ["stdout_placeholder_before_a_file"], "bare_color_position": ["first", "middle", "last"], "namespace_view_made": ["before_the_data", "after_the_data"],
+REQUIRED_SEEN = {"userdata_changed_with": ["update", "item_assignment", "config.update_userdata"], "stage_decided_by": ["cmdline", "file", "environment", "default", "cmdline_with_BEHAVE_STAGE_set", "file_with_BEHAVE_STAGE_set"], "embedded_args": ["none_means_sys_argv", "empty_list", "empty_str", "empty_tuple", "given"], "outfile_list_shape": ["stdout_placeholder_before_a_file"], "bare_color_position": ["first", "middle", "last"], "namespace_view_made": ["before_the_data", "after_the_data"],
                  "define_value_shape": ["different_quote_characters_at_the_ends"], "namespace_name_shape": ["name_starts_with_namespace_text"], "config_file_kind": ["behave.ini", ".behaverc", "setup.cfg", "tox.ini", "pyproject.toml"],
                  "config_file_place": ["cwd", "home"], "source_deciding": ["cmdline", "file", "default"]}
 EXHAUSTIVE = True
@@ -607,6 +607,62 @@ def userdata_cases(mon, sc, rng, n):
                   UserData({"k": "x"}).getas(str.upper, "k", valuetype=int) == "X", dict(note="values of the right type are returned as they are; getas converts"))
 
 
+def userdata_histories(mon, sc, rng):
+    """Histories on ONE user-data object: a typed getter reads, the data changes (update() / item assignment /
+    config.update_userdata(), which re-applies the -D definitions on top), the getter reads again -- it converts what is there NOW."""
+    from behave.userdata import UserData
+
+    def read(ud):
+        out = []
+        for getter, name in (("getfloat", "timeout"), ("getbool", "verbose"), ("getint", "n")):
+            try:
+                out.append(getattr(ud, getter)(name))
+            except ValueError:
+                out.append("ValueError")
+        return out
+    first, second = {"timeout": "1.5", "verbose": "no", "n": "3"}, {"timeout": "2.5", "verbose": "yes", "n": "x"}
+    for how in ("update", "item_assignment", "config.update_userdata"):
+        sc.clear_files()
+        if how == "config.update_userdata":
+            config, err = make_config([])
+            if config is None:
+                mon.check("userdata.history_getter_reads_current_value", False, dict(how=how, error=err))
+                continue
+            config.update_userdata(dict(first))
+            ud = config.userdata
+        else:
+            ud = UserData(dict(first))
+        r1 = read(ud)
+        if how == "update":
+            ud.update(second)
+        elif how == "item_assignment":
+            for k_, v_ in second.items():
+                ud[k_] = v_
+        else:
+            config.update_userdata(dict(second))
+        r2 = read(ud)
+        mon.case(("userdata-history", how), True)
+        mon.seen("userdata_changed_with", how)
+        mon.check("userdata.history_getter_reads_current_value", r1 == [1.5, False, 3] and r2 == [2.5, True, "ValueError"],
+                  lambda: dict(changed_with=how, first_read=r1, second_read=r2, want=[[1.5, False, 3], [2.5, True, "ValueError"]]))
+    # data loaded by user code (JSON / YAML: real booleans and numbers) handed to config.update_userdata(): a -D definition of the same
+    # name still wins -- as the text it is, read by the typed getters like any text
+    for text, want_b in (("false", False), ("no", False), ("off", False), ("0", False), ("true", True), ("yes", True)):
+        sc.clear_files()
+        config, err = make_config(["-D", "use_cache=%s" % text, "-D", "retries=5"])
+        if config is None:
+            mon.check("userdata.command_line_definition_wins_over_loaded_data", False, dict(error=err))
+            continue
+        config.update_userdata({"use_cache": not want_b, "retries": 3, "other": True})
+        try:
+            got = (config.userdata.getbool("use_cache"), config.userdata.getint("retries"), config.userdata.getbool("other"))
+        except Exception as ex:
+            got = repr(ex)
+        mon.case(("userdata-loaded", text), True)
+        mon.check("userdata.command_line_definition_wins_over_loaded_data", got == (want_b, 5, True),
+                  lambda: dict(definition="-D use_cache=%s" % text, loaded={"use_cache": not want_b, "retries": 3}, got=got, want=[want_b, 5, True]))
+
+
 def couplings(mon, sc, rng, n):
     for i in range(n):
         sc.clear_files()
@@ -800,6 +856,7 @@ def run(spec, mon):
         for i in range(90 if tier == "quick" else 5500):
             random_case(mon, sc, rng, sample=(i == 3 and spec["shard"] == 0))
         userdata_cases(mon, sc, rng, 250 if tier == "quick" else 8000)
+        userdata_histories(mon, sc, rng)
         bare_color(mon, sc, rng, 20 if tier == "quick" else 600)
         formatter_outputs(mon, sc, rng, 25 if tier == "quick" else 800)
         couplings(mon, sc, rng, 10 if tier == "quick" else 300)
